@@ -117,7 +117,7 @@ def proj(e):
     return [bool(e.meta.isdir) if e.meta else False, e.hash_info.value if e.hash_info else None]
 
 
-def run_query(idx, q):
+def run_query(idx, q, proj=proj, field="md5"):
     from dvc_data.index.view import DataIndexView
 
     kind = q["q"]
@@ -134,7 +134,7 @@ def run_query(idx, q):
     if kind == "info":
         def f():
             i = idx.info(key)
-            return [i["type"], i.get("md5")]
+            return [i["type"], i.get(field)]
         k, v = safe_call(f, expected=(KeyError,))
         return v
     if kind == "view":
@@ -332,23 +332,263 @@ def root_key_cases(ctx):
                                                      "lazy": v, "expanded": exp}, signature=sig)
 
 
+# ---------------------------------------------------------------------------------------------------------------------
+# unloaded directories backed by a FileStorage (a workspace / remote directory tree instead of a directory object)
+# ---------------------------------------------------------------------------------------------------------------------
+def gen_fs_case(rng):
+    """1-2 FileStorages registered at keys of depth 0-2, each with one of its possible path origins (`prefix`: the default =
+    its key, or explicitly any prefix of its key down to ()), backing 1-2 unloaded directory entries at or below its key and
+    0-2 explicitly listed files; decoy files with the same names sit at every position a mis-resolved path could land on"""
+    tops = ["data", "w", "s"]
+    rng.shuffle(tops)
+    storages = []
+    for si in range(rng.randrange(1, 3)):
+        if si == 1 and rng.random() < 0.25:
+            key = ()                                   # a second storage at the root: longest-prefix resolution matters
+        else:
+            key = (tops[si],) + ((rng.choice(["s", "sub"]),) if rng.random() < 0.4 else ())
+        r = rng.random()
+        prefix = None if r < 0.25 else list(key[: (0 if r < 0.6 else rng.randrange(0, len(key) + 1))])
+        lazy, files = {}, {}
+        for _ in range(rng.randrange(1, 3)):
+            d = key + tuple(rng.choice(["lz", "s"]) for _ in range(rng.randrange(0, 2)))
+            if not d:
+                d = ("lz",)
+            sub = {}
+            for _ in range(rng.randrange(1, 5)):
+                rk = tuple(rng.choice(["s", "t"]) for _ in range(rng.randrange(0, 3))) + ("g%d" % rng.randrange(4),)
+                if not any(rk[: len(o)] == o or o[: len(rk)] == rk for o in sub):
+                    sub[rk] = "inner-%d-%s" % (rng.randrange(1000), "x" * rng.randrange(0, 12))
+            lazy[d] = sub
+        for _ in range(rng.randrange(0, 3)):
+            k = key + tuple(rng.choice(["a", "lz"]) for _ in range(rng.randrange(0, 2))) + ("g%d" % rng.randrange(4),)
+            files[k] = "file-%d-%s" % (rng.randrange(1000), "y" * rng.randrange(0, 12))
+        storages.append({"key": key, "prefix": prefix, "lazy": lazy, "files": files})
+    # well-formed: no entry above / below another one; a key belongs to the storage with the longest matching key
+    allk = [k for s in storages for k in list(s["lazy"]) + list(s["files"])]
+    ok = lambda k: sum(1 for o in allk if o == k) == 1 and not any(o != k and (o[: len(k)] == k or k[: len(o)] == o) for o in allk)  # noqa: E731
+    own = lambda s, k: max(storages, key=lambda t: len(t["key"]) if k[: len(t["key"])] == t["key"] else -1) is s  # noqa: E731
+    for s in storages:
+        s["lazy"] = {k: v for k, v in s["lazy"].items() if ok(k) and own(s, k)}
+        s["files"] = {k: v for k, v in s["files"].items() if ok(k) and own(s, k)}
+    if not any(s["lazy"] for s in storages):
+        s = storages[0]
+        s["files"] = {}
+        s["lazy"] = {(s["key"] or ("only",)): {("g0",): "inner"}}
+        storages[:] = [s]
+    return {
+        "file_storages": [{"key": list(s["key"]), "prefix": s["prefix"],
+                           "lazy": {"/".join(k): {"/".join(r): v for r, v in sub.items()} for k, sub in s["lazy"].items()},
+                           "files": {"/".join(k): v for k, v in s["files"].items()}} for s in storages],
+        "explicit_dirs": rng.random() < 0.5, "sqlite": rng.random() < 0.3, "decoys": rng.random() < 0.85,
+    }
+
+
+def fs_layout(case):
+    """per storage: (key, prefix argument, effective origin, {relative path: bytes} of the indexed files, decoys)"""
+    out = []
+    for s in case["file_storages"]:
+        key = tuple(s["key"])
+        prefix = None if s["prefix"] is None else tuple(s["prefix"])
+        origin = key if prefix is None else prefix        # paths are taken relative to this index key
+        real, lazydirs = {}, []
+        for d, sub in s["lazy"].items():
+            d = split(d)
+            lazydirs.append(d[len(origin):])
+            for r, v in sub.items():
+                real[(d + split(r))[len(origin):]] = v.encode()
+        for k, v in s["files"].items():
+            real[split(k)[len(origin):]] = v.encode()
+        decoys = {}
+        if case["decoys"]:
+            clash = lambda a, b: a[: len(b)] == b or b[: len(a)] == a  # noqa: E731
+            for rel, v in sorted(real.items()):
+                full = origin + rel
+                cands = [rel[i:] for i in range(1, len(rel))] + [full[j:] for j in range(len(origin))]
+                cands += [(c,) + rel for c in ("data", "w", "s", "sub")]
+                for c in cands:
+                    if any(c[: len(d)] == d for d in lazydirs) or any(clash(c, o) for o in real) or any(clash(c, o) for o in decoys):
+                        continue
+                    decoys[c] = b"DECOY-" + v + b"-not-in-the-index"
+        out.append((key, prefix, origin, real, decoys))
+    return out
+
+
+def build_fs_indexes(case, root, tag=""):
+    """(lazy index, explicitly expanded index, expected flat view {key: [isdir, size]}, {key: (bytes, path on disk)})"""
+    from dvc_objects.fs.local import LocalFileSystem
+
+    from dvc_data.hashfile.meta import Meta
+    from dvc_data.index.index import DataIndex, DataIndexEntry, FileStorage
+
+    from .util import write_file
+
+    def new(name):
+        return DataIndex.open(os.path.join(root, "%s%s.db" % (name, tag))) if case["sqlite"] else DataIndex()
+
+    L, E = new("fs-lazy"), new("fs-expanded")
+    flat, content, dirs = {}, {}, set()
+    for si, (key, prefix, origin, real, decoys) in enumerate(fs_layout(case)):
+        base = os.path.join(root, "ws%d" % si)
+        os.makedirs(base, exist_ok=True)
+        for rel, data in list(real.items()) + list(decoys.items()):
+            p = os.path.join(base, *rel)
+            if not os.path.exists(p):
+                write_file(p, data)
+        for idx in (L, E):
+            kw = {} if prefix is None else {"prefix": prefix}
+            idx.storage_map.add_data(FileStorage(key=key, fs=LocalFileSystem(), path=base, **kw))
+        s = case["file_storages"][si]
+        for k, v in s["files"].items():
+            k = split(k)
+            for idx in (L, E):
+                idx[k] = DataIndexEntry(key=k, meta=Meta(size=len(v)))
+            flat[k] = [False, len(v)]
+            content[k] = (v.encode(), os.path.join(base, *k[len(origin):]))
+            dirs.update(k[:i] for i in range(1, len(k)))
+        for d, sub in s["lazy"].items():
+            d = split(d)
+            L[d] = DataIndexEntry(key=d, meta=Meta(isdir=True))
+            E[d] = DataIndexEntry(key=d, meta=Meta(isdir=True), loaded=True)
+            flat[d] = [True, None]
+            dirs.update(d[:i] for i in range(1, len(d)))
+            for r, v in sub.items():
+                r = split(r)
+                E[d + r] = DataIndexEntry(key=d + r, meta=Meta(size=len(v)))
+                flat[d + r] = [False, len(v)]
+                content[d + r] = (v.encode(), os.path.join(base, *(d + r)[len(origin):]))
+                for i in range(1, len(r)):
+                    E[d + r[:i]] = DataIndexEntry(key=d + r[:i], meta=Meta(isdir=True), loaded=True)
+                    flat[d + r[:i]] = [True, None]
+    if case["explicit_dirs"]:
+        for d in sorted(dirs):
+            if d not in flat:
+                for idx in (L, E):
+                    idx[d] = DataIndexEntry(key=d, meta=Meta(isdir=True), loaded=True)
+                flat[d] = [True, None]
+    return L, E, flat, content
+
+
+def proj_size(e):
+    isdir = bool(e.meta.isdir) if e.meta else False
+    return [isdir, None if isdir or not e.meta else e.meta.size]
+
+
+def check_fs(ctx, case):
+    """the statement of C17 for unloaded directories that a FileStorage backs: the lazy index against the index that lists
+    the same files explicitly (same storages), load() twice, diff, and the adaptor against the bytes on disk"""
+    from dvc_data.fs import DataFileSystem
+    from dvc_data.index.diff import diff
+
+    rng = ctx.rng
+    root = ctx.mkdtemp()
+    L, E, flat, content = build_fs_indexes(case, root)
+    lazydirs = [split(d) for s in case["file_storages"] for d in s["lazy"]]
+    allkeys = sorted(flat)
+    below = sorted(k for k in flat if any(k[: len(d)] == d and k != d for d in lazydirs))
+    queries = []
+    for _ in range(rng.randrange(4, 12)):
+        r = rng.random()
+        pick = list(rng.choice(below if (below and rng.random() < 0.6) else allkeys))
+        if rng.random() < 0.15:
+            pick = pick + ["nope"]
+        if r < 0.35:
+            queries.append({"q": "get", "key": pick})
+        elif r < 0.55:
+            queries.append({"q": "iter", "key": pick[: rng.randrange(0, len(pick) + 1)] if rng.random() < 0.7 else []})
+        elif r < 0.8:
+            queries.append({"q": "ls", "key": pick[:-1] if rng.random() < 0.7 else pick})
+        else:
+            queries.append({"q": "info", "key": pick})
+    caseq = {**case, "queries": queries}
+    ctx.case(caseq, nontrivial=any(q["q"] in ("get", "ls", "info") and tuple(q["key"]) in below for q in queries))
+    ctx.count("family:file-storage")
+    for s in case["file_storages"]:
+        ctx.count("file-storage-prefix:%s" % ("default" if s["prefix"] is None else "key" if s["prefix"] == s["key"] else
+                                                "root" if not s["prefix"] else "partial"))
+    sig = "file-storage-backed-unloaded-directory"
+    size_key = lambda m: m and (bool(m.isdir), None if m.isdir else m.size)  # noqa: E731
+    try:
+        for i, q in enumerate(queries):
+            ctx.count("fs-query:" + q["q"])
+            a = run_query(L, q, proj=proj_size, field="size")
+            b = run_query(E, q, proj=proj_size, field="size")
+            if q["q"] == "info" and isinstance(a, list) and a[0] == "directory":
+                a, b = a[:1], b[:1]        # the size reported for a directory is the file system's, not part of the property
+            ctx.oracle(a == b, caseq, {"why": "the lazy index (directory backed by a FileStorage) answers differently from the explicitly expanded one",
+                                       "query_no": i, "query": q, "lazy": a, "expanded": b}, signature=sig)
+        k1, after1 = safe_call(lambda: (L.load(), sorted([list(kk), proj_size(e)] for kk, e in L.iteritems()))[1])
+        k2, after2 = safe_call(lambda: (L.load(), sorted([list(kk), proj_size(e)] for kk, e in L.iteritems()))[1])
+        want = sorted([list(k), v] for k, v in flat.items())
+        ctx.oracle(k1 == "ok" and after1 == after2 == want, caseq,
+                   {"why": "loading a FileStorage-backed directory is not idempotent or does not yield the files of that directory",
+                    "after_first": after1 if after1 != want else "ok", "after_second": after2 if after2 != want else "ok",
+                    "expected": want}, signature=sig)
+        L2, E2, *_ = build_fs_indexes(case, root, tag="-diff")
+        try:
+            k3, d = safe_call(lambda: sorted((c.typ, list(c.key)) for c in diff(E2, L2, meta_cmp_key=size_key)))
+        finally:
+            for idx in (L2, E2):
+                safe_call(idx.close)
+        ctx.oracle(k3 == "ok" and d == [], caseq, {"why": "diff between the expanded and the lazy index (kinds and sizes) is not empty", "diff": d}, signature=sig)
+        # the adaptor over the lazy index: contents are the bytes the storage holds at the indexed position
+        L3, E3, *_ = build_fs_indexes(case, root, tag="-fs")
+        try:
+            dfs = DataFileSystem(L3)
+            for k in rng.sample(sorted(content), min(4, len(content))):
+                data, disk = content[k]
+                path = "/" + "/".join(k)
+                with open(disk, "rb") as f:
+                    on_disk = f.read()
+                kk, got = safe_call(lambda: dfs.cat_file(path))
+                ctx.oracle(kk == "ok" and got == data == on_disk, caseq,
+                           {"why": "adaptor content differs from the bytes the FileStorage holds for that key", "path": path,
+                            "got": str(got)[:80], "expected": data.decode()}, signature=sig)
+                ki, inf = safe_call(lambda: dfs.info(path))
+                ctx.oracle(ki == "ok" and inf["type"] == "file" and inf.get("size") == len(data), caseq,
+                           {"why": "adaptor metadata differs from the index / the stored file", "path": path, "info": str(inf)[:120]}, signature=sig)
+            for d_ in lazydirs[:2]:
+                kl, names = safe_call(lambda: sorted(os.path.basename(p.rstrip("/")) for p in dfs.ls("/" + "/".join(d_), detail=False)))
+                exp = sorted({k[len(d_)] for k in flat if k[: len(d_)] == d_ and len(k) > len(d_)})
+                ctx.oracle(kl == "ok" and names == exp, caseq, {"why": "adaptor listing of a FileStorage-backed directory differs from the index",
+                                                                "dir": "/".join(d_), "got": names, "expected": exp}, signature=sig)
+                kf, found = safe_call(lambda: sorted(dfs.find("/" + "/".join(d_))))
+                expf = sorted("/" + "/".join(k) for k, v in flat.items() if not v[0] and k[: len(d_)] == d_)
+                ctx.oracle(kf == "ok" and found == expf, caseq, {"why": "adaptor find() under a FileStorage-backed directory differs from the index",
+                                                                 "dir": "/".join(d_), "got": found, "expected": expf}, signature=sig)
+        finally:
+            for idx in (L3, E3):
+                safe_call(idx.close)
+    finally:
+        for idx in (L, E):
+            safe_call(idx.close)
+
+
 def run(ctx):
     ctx.rule = (
         "indexes mixing explicit files, explicit or implicit directories and 1-2 unloaded directory objects (nested listings, depth "
         "<= 3), in memory and SQLite-backed; 6-19 random queries per index (lookup incl. below unloaded directories and missing keys, "
         "iteration under a prefix, listing, info, views with random prefix-closed filters) run against the lazy index, the "
         "explicitly expanded index (oracle) and the model; load() twice; hash-level diff; adaptor cat/info/ls. non-trivial = a "
-        "query hits a key below an unloaded directory"
+        "query hits a key below an unloaded directory. Second family (oracle only): unloaded directory entries backed by 1-2 "
+        "FileStorages (directory trees on disk) registered at keys of depth 0-2 with every path origin (prefix default / = key / "
+        "partial / explicit ()), explicit files next to them, decoy files with the same names at the positions a shifted path "
+        "would resolve to; lookup / iteration / listing / info against the explicitly expanded index with the same storages, "
+        "load() twice, diff on kinds and sizes, adaptor cat/info/ls/find against the bytes on disk"
     )
     ctx.assumptions = ["len() of an index before any access is not load-transparent and not part of the property"]
     root_key_cases(ctx)
     for _ in range(ctx.n(110, 1500)):
         check(ctx, gen_case(ctx.rng))
+    for _ in range(ctx.n(40, 400)):
+        check_fs(ctx, gen_fs_case(ctx.rng))
 
 
 def search(ctx):
     for _ in range(1200):
         check(ctx, gen_case(ctx.rng))
+        if ctx.rng.random() < 0.3:
+            check_fs(ctx, gen_fs_case(ctx.rng))
 
 
 def replay(ctx, payload):
